@@ -277,3 +277,131 @@ package table
 //@   heapfun
 //@   requires wfCell(c)
 //@   ensures[text] result == cellText(c)
+
+// ---- GROUP BY: accumulators (C11) -----------------------------------------------------------
+//@ props C11 C08
+// count: the number of calls since the last Reset.
+//@ func (c *countAcc) Accumulate
+//@   requires c != nil
+//@   modifies c.state
+//@   ensures[counts-one-more] c.state == old(c.state) + 1 && result1 == nil && result0 == box(c.state, "int64")
+//@ func (c *countAcc) Reset
+//@   requires c != nil
+//@   modifies c.state
+//@   ensures c.state == 0
+//@ func NewCountAccumulator
+//@   ensures typeis(result, "*countAcc") && fresh(unbox(result, "*countAcc")) && unbox(result, "*countAcc").state == 0
+
+// count distinct: the number of different printed values since the last Reset (the state maps each
+// printed value seen to the number of times it was seen).
+//@ func (c *countDistinctAcc) Accumulate
+//@   requires c != nil && c.state != nil
+//@   modifies contents(c.state)
+//@   ensures[value-recorded] has(c.state, fmtany(v, "%v")) && c.state[fmtany(v, "%v")] == old(ite(has(c.state, fmtany(v, "%v")), c.state[fmtany(v, "%v")], 0)) + 1
+//@   ensures[others-untouched] forall k string :: {has(c.state, k)} k != fmtany(v, "%v") ==> has(c.state, k) == old(has(c.state, k)) && c.state[k] == old(c.state[k])
+//@   ensures[number-of-distinct-values] result1 == nil && result0 == box(len(c.state), "int64")
+//@ func (c *countDistinctAcc) Reset
+//@   requires c != nil
+//@   modifies c.state
+//@   ensures c.state != nil && fresh(c.state) && (forall k string :: {has(c.state, k)} !has(c.state, k))
+//@ func NewCountDistinctAccumulator
+//@   ensures typeis(result, "*countDistinctAcc") && fresh(unbox(result, "*countDistinctAcc")) && unbox(result, "*countDistinctAcc").state != nil && (forall k string :: {has(unbox(result, "*countDistinctAcc").state, k)} !has(unbox(result, "*countDistinctAcc").state, k))
+
+// sum of int64 literals: the running sum; a cell that is not an int64 literal is an error and leaves the sum alone.
+//@ func (s *sumInt64) Accumulate
+//@   requires s != nil && typeis(v, "*Cell") && unbox(v, "*Cell") != nil && (unbox(v, "*Cell").L != nil ==> wfLit(unbox(v, "*Cell").L))
+//@   modifies s.state
+//@   ensures[error-iff-not-int64] result1 == nil <==> (unbox(v, "*Cell").L != nil && unbox(v, "*Cell").L.t == literal.Int64)
+//@   ensures[adds] result1 == nil ==> s.state == old(s.state) + unbox(unbox(v, "*Cell").L.v, "int64") && result0 == box(s.state, "int64")
+//@   ensures[error-leaves-sum] result1 != nil ==> s.state == old(s.state)
+//@ func (s *sumInt64) Reset
+//@   requires s != nil
+//@   modifies s.state
+//@   ensures s.state == s.initialState
+//@ func NewSumInt64LiteralAccumulator
+//@   ensures typeis(result, "*sumInt64") && fresh(unbox(result, "*sumInt64")) && unbox(result, "*sumInt64").state == s && unbox(result, "*sumInt64").initialState == s
+
+// sum of float64 literals: the running IEEE sum (f64add is Go's float64 addition).
+//@ func (s *sumFloat64) Accumulate
+//@   requires s != nil && typeis(v, "*Cell") && unbox(v, "*Cell") != nil && (unbox(v, "*Cell").L != nil ==> wfLit(unbox(v, "*Cell").L))
+//@   modifies s.state
+//@   ensures[error-iff-not-float64] result1 == nil <==> (unbox(v, "*Cell").L != nil && unbox(v, "*Cell").L.t == literal.Float64)
+//@   ensures[adds] result1 == nil ==> s.state == f64add(old(s.state), unbox(unbox(v, "*Cell").L.v, "float64")) && result0 == box(s.state, "float64")
+//@   ensures[error-leaves-sum] result1 != nil ==> s.state == old(s.state)
+//@ func (s *sumFloat64) Reset
+//@   requires s != nil
+//@   modifies s.state
+//@   ensures s.state == s.initialState
+//@ func NewSumFloat64LiteralAccumulator
+//@   ensures typeis(result, "*sumFloat64") && fresh(unbox(result, "*sumFloat64")) && unbox(result, "*sumFloat64").state == s && unbox(result, "*sumFloat64").initialState == s
+
+// ---- GROUP BY: Reduce (C11) -----------------------------------------------------------------
+// The group id of a row: the printed forms of its cells under the group-by bindings.
+//@ func (t *Table) Reduce$1
+//@   heapfun
+//@   opt terminates
+//@   requires sortable(r, deref(cfg))
+//@   ensures[never-empty] len(deref(cfg)) >= 1 ==> result != ""
+//@   loop 0 invariant 0 <= $i && $i <= len(deref(cfg)) && res != nil && fresh(res) && ($i > 0 ==> bufstr(res) != "")
+
+// toMap: the pairs indexed by input binding, then by output binding (a later pair with the same two
+// names replaces an earlier one).
+//@ func toMap
+//@   opt terminates
+//@   ensures[fresh] result != nil && fresh(result)
+//@   ensures[outer-keys] forall b string :: {has(result, b)} has(result, b) <==> (exists j int :: {aaps[j]} 0 <= j && j < len(aaps) && aaps[j].InAlias == b)
+//@   ensures[inner-maps] forall b string :: {has(result, b)} has(result, b) ==> result[b] != nil && fresh(result[b])
+//@   ensures[inner-keys] forall b string, o string :: {has(result[b], o)} has(result, b) && has(result[b], o) <==> (exists j int :: {aaps[j]} 0 <= j && j < len(aaps) && aaps[j].InAlias == b && aaps[j].OutAlias == o)
+//@   ensures[inner-values] forall b string, o string :: {has(result[b], o)} has(result, b) && has(result[b], o) ==> result[b][o].InAlias == b && result[b][o].OutAlias == o && (exists j int :: {aaps[j]} 0 <= j && j < len(aaps) && aaps[j] == result[b][o])
+//@   loop 0 invariant[bounds] 0 <= $i && $i <= len(aaps) && resMap != nil && fresh(resMap)
+//@   loop 0 invariant[outer-keys] forall b string :: {has(resMap, b)} has(resMap, b) <==> (exists j int :: {aaps[j]} 0 <= j && j < $i && aaps[j].InAlias == b)
+//@   loop 0 invariant[inner-maps] forall b string :: {has(resMap, b)} has(resMap, b) ==> resMap[b] != nil && fresh(resMap[b])
+//@   loop 0 invariant[inner-distinct] forall b string, c string :: {has(resMap, b), has(resMap, c)} has(resMap, b) && has(resMap, c) && b != c ==> resMap[b] != resMap[c]
+//@   loop 0 invariant[inner-keys] forall b string, o string :: {has(resMap[b], o)} has(resMap, b) && has(resMap[b], o) <==> (exists j int :: {aaps[j]} 0 <= j && j < $i && aaps[j].InAlias == b && aaps[j].OutAlias == o)
+//@   loop 0 invariant[inner-values] forall b string, o string :: {has(resMap[b], o)} has(resMap, b) && has(resMap[b], o) ==> resMap[b][o].InAlias == b && resMap[b][o].OutAlias == o && (exists j int :: {aaps[j]} 0 <= j && j < $i && aaps[j] == resMap[b][o])
+
+// unsafeFullGroupRangeReduce folds the rows [i, j) into one row through the accumulators. Its body
+// (seven nested loops over maps of accumulators behind an interface) is not verified: the contract
+// is ASSUMED. It writes accumulator state only and needs a non-empty range (it reads rng[0]).
+//@ func (t *Table) unsafeFullGroupRangeReduce
+//@   nobody
+//@   requires[non-empty-range] t != nil && 0 <= i && i < j && j <= len(t.Data)
+//@   modifies heap(countAcc.state), heap(sumInt64.state), heap(sumFloat64.state), heap(countDistinctAcc.state), heap(contents:countDistinctAcc.state)
+//@   ensures[row-or-error] (result0 != nil && result1 == nil) || (result0 == nil && result1 != nil)
+//@   ensures[fresh-row] result0 != nil ==> fresh(result0)
+
+// Reduce: after sorting by the group-by bindings every call of the range reducer covers exactly one
+// maximal run of consecutive rows with the same group id (the printed group-by cells): it starts
+// where the id changes, all its rows have one id, and it ends where the id changes again or at the
+// end of the table; an error of the reducer is returned; an empty table stays empty.
+//@ spec macro gid(r Row, c *SortConfig) String = call("(*Table).Reduce$1", r, c)
+// t.#failed: ghost flag, set when a table operation of the GROUP BY stage reports an error.
+//@ ghost field Table.#failed Bool
+//@ func (t *Table) ProjectBindings
+//@   opt terminates
+//@   requires t != nil && t.#lock_mu == 0
+//@   modifies t.AvailableBindings, t.mbs, t.#lock_mu, t.#failed
+//@   ghostdef result != nil ==> t.#failed
+//@   ghostdef result == nil ==> t.#failed == old(t.#failed)
+//@   ensures[lock] t.#lock_mu == 0
+//@   ensures[rows-untouched] t.Data == old(t.Data)
+//@   ensures[unknown-binding-is-an-error] old(len(t.Data)) > 0 && old(len(t.mbs)) > 0 && (exists j int :: {bs[j]} 0 <= j && j < len(bs) && !(old(has(t.mbs, bs[j])) && old(t.mbs[bs[j]]))) ==> result != nil
+//@   ensures[projected] result == nil && old(len(t.Data)) > 0 && old(len(t.mbs)) > 0 ==> bindingSet(t.mbs) && (forall k string :: {has(t.mbs, k)} has(t.mbs, k) <==> (exists j int :: {bs[j]} 0 <= j && j < len(bs) && bs[j] == k))
+//@   loop 0 invariant t.#lock_mu == 2 && 0 <= $i && $i <= len(bs) && t.mbs == old(t.mbs) && t.AvailableBindings == old(t.AvailableBindings) && (forall j int :: {bs[j]} 0 <= j && j < $i ==> has(t.mbs, bs[j]) && t.mbs[bs[j]])
+
+//@ func (t *Table) Reduce
+//@   requires t != nil && t.#lock_mu == 0 && len(cfg) >= 1 && sortableRows(t.Data, cfg)
+//@   modifies t.#failed
+//@   ghostdef result != nil ==> t.#failed
+//@   ghostdef result == nil ==> t.#failed == old(t.#failed)
+//@   modifies t.Data, t.AvailableBindings, t.mbs, t.#lock_mu, heap(countAcc.state), heap(sumInt64.state), heap(sumFloat64.state), heap(countDistinctAcc.state), heap(contents:countDistinctAcc.state)
+//@   ensures[lock] t.#lock_mu == 0
+//@   ensures[empty-stays-empty] old(len(t.Data)) == 0 ==> len(t.Data) == 0
+//@   ensures[groups-are-not-more-than-rows] result == nil && old(len(t.Data)) > 0 ==> 1 <= len(t.Data) && len(t.Data) <= old(len(t.Data))
+//@   atcall unsafeFullGroupRangeReduce assert[one-maximal-run] 0 <= i && i < j && j <= len(t.Data) && (forall k int :: {t.Data[k]} i <= k && k < j ==> gid(t.Data[k], addr(cfg)) == gid(t.Data[i], addr(cfg))) && (i == 0 || gid(t.Data[i - 1], addr(cfg)) != gid(t.Data[i], addr(cfg))) && (j == len(t.Data) || gid(t.Data[j], addr(cfg)) != gid(t.Data[i], addr(cfg)))
+//@   loop 0 invariant t.#lock_mu == 2 && t.Data == old(t.Data) && maaps != nil
+//@   loop 1 invariant t.#lock_mu == 2 && t.Data == old(t.Data) && maaps != nil
+//@   loop 2 invariant[frame] t.#lock_mu == 2 && 0 <= $i && $i <= len(t.Data) && t.Data == atentry(t.Data) && len(deref(addr(cfg))) >= 1 && sortableRows(t.Data, deref(addr(cfg))) && maaps != nil
+//@   loop 2 invariant[run] 0 <= lastIdx && lastIdx <= $i && ((last == "") <==> ($i == 0)) && ($i > 0 ==> lastIdx < $i && last == gid(t.Data[lastIdx], addr(cfg)) && (forall k int :: {t.Data[k]} lastIdx <= k && k < $i ==> gid(t.Data[k], addr(cfg)) == last) && (lastIdx == 0 || gid(t.Data[lastIdx - 1], addr(cfg)) != last))
+//@   loop 2 invariant[count] len(newData) <= lastIdx && (lastIdx > 0 ==> len(newData) >= 1)
+//@   loop 3 invariant t.#lock_mu == 2 && t.mbs != nil && fresh(t.mbs) && len(newData) == atentry(len(newData))
